@@ -91,3 +91,14 @@ Proof.
   unfold sstep. intros E. rewrite E. destruct ((0 <? c) && (sg_count g =? c)) eqn:Q; [|intro H; lia].
   apply andb_true_iff in Q. destruct Q as (Q1 & Q2). apply N.ltb_lt in Q1. apply N.eqb_eq in Q2. cbn. intros _. subst c. split; [exact Q1 | reflexivity].
 Qed.
+
+(* C14, every schedule: a try_acquire (its compare_exchange, with whatever expected value) that changes anything found a
+   permit: it never succeeds on an empty semaphore, and it takes exactly one *)
+Theorem sem_sched_try_acquire_exact init n sched i c :
+  let g := srun init n sched in
+  sstep g i (SCas c) <> g -> 0 < sg_count g /\ sg_count (sstep g i (SCas c)) = sg_count g - 1.
+Proof.
+  intros g Ch. unfold sstep in *. destruct (nth_error (sg_held g) i) as [h|]; [|contradiction].
+  destruct ((0 <? c) && (sg_count g =? c)) eqn:Q; [|contradiction].
+  apply andb_true_iff in Q. destruct Q as (Q1 & Q2). apply N.ltb_lt in Q1. apply N.eqb_eq in Q2. subst c. cbn. split; [exact Q1 | reflexivity].
+Qed.
